@@ -36,8 +36,10 @@ def gen_ops(rng, tier):
         ops.append("g11c %d %d %d %d %d %d %d %d %d" % (rng.choice([rng.randint(1, 70), 16, 32, 33, 31, 17]), rng.randint(1, 24), rng.randrange(12), rng.randrange(7), rng.choice([0, 0, 1, 3, 9, 40]),
                                                        rng.randrange(2), rng.randrange(1 << 30), prec, ll))
     for i in range(4000 if big else 500):
-        ops.append("g11y %d %d %d %d %d %d %d" % (rng.choice([rng.randint(1, 70), 16, 32, 33, 31, 17]), rng.randint(1, 24), rng.choice([0, 1, 2, 3, 4, 5, 6]), rng.choice([0, 0, 1, 3, 8]),
-                                                 rng.randrange(2), rng.randrange(1 << 30), rng.randrange(16)))
+        # last argument: entropy-coding parameters set on the instance that colour conversion / downsampling must not depend on
+        # (bit 0 TJPARAM_LOSSLESS, 1 PROGRESSIVE, 2 ARITHMETIC, 3 OPTIMIZE, 4 RESTARTROWS)
+        ops.append("g11y %d %d %d %d %d %d %d %d" % (rng.choice([rng.randint(1, 70), 16, 32, 33, 31, 17]), rng.randint(1, 24), rng.choice([0, 1, 2, 3, 4, 5, 6]), rng.choice([0, 0, 1, 3, 8]),
+                                                    rng.randrange(2), rng.randrange(1 << 30), rng.randrange(16), rng.choice([0, 0, 0, 1, 1, 2, 4, 8, 16, 31])))
     return ops
 
 
